@@ -1,4 +1,4 @@
-//@kunit props=C19,C16,C05 append=crates/axmos-db/src/types/mod.rs
+//@kunit props=C19,C16,C05,C18 append=crates/axmos-db/src/types/mod.rs
 // Unit `types`: laws of the value type (DataType) -- equality, ordering, hashing, casting,
 // arithmetic panic-freedom, VarInt codec.  The code under check is macro/derive generated,
 // so it is checked as compiled (Kani on MIR), full-domain symbolic values, loop-free harnesses
